@@ -63,6 +63,7 @@ func fixedPrograms() []string {
 		"fun f() {\n    let x = a;\n    /public/p.y = 1\n}",
 		"fun f(): Int {\n    pre {\n        a: \"m\"\n        (*b).c\n    }\n    return 1\n}",
 		"let x = a < fun () {\n}",
+		"let x = a < (fun (): Int {\n} < b)",
 		"let x = (a < b) > (c ? d : e)",
 		"let x = a ? a ? a ? a ? a ? a ? a ? a ? a ? a ? a : b : b : b : b : b : b : b : b : b : b",
 		"struct S { struct T { struct U {} } }\ncontract C { resource interface RI {}\n struct interface SI {}\n contract interface CI {} }",
